@@ -27,6 +27,9 @@ def _should_set_millisecond(cr, marking_type):
             return False
     if getattr(cr, 'precision', None) == 'millisecond':
         return True
+    # a datetime with a fractional second is written with a '.' too
+    if getattr(cr, 'microsecond', 0):
+        return True
     return False
 
 
